@@ -199,6 +199,7 @@ class Run:
         self.bounded = None  # set to a reason string if this path went through a bounded unrolling
         self.loop_frames = []  # stack of (born_epoch, allowed_locs) for loop frame checking
         self.inline_depth = 0
+        self.cur_frame = None
         self.callstack = []
 
     # ------------------------------------------------------------------ path condition
@@ -869,6 +870,24 @@ class Run:
         tt = T.Tuple(*[v.t for v in vals])
         return V(tt, tt.mk(*[v.z for v in vals]))
 
+    def lref_value(self, v, heap=None):
+        """the record currently stored in the slot a ListItemRef points to"""
+        lst, idx = v.z
+        c = self.content(lst, heap)
+        return V(v.t.rec, nth(c.z, idx))
+
+    def lref_store(self, v, rec_term):
+        lst, idx = v.z
+        c = self.content(lst)
+        n = z3.Length(c.z)
+        # index form (E-matching friendly) instead of a concat of slices: a fresh sequence equal to the old one except at idx
+        c2 = z3.Const(fresh_name("slotupd"), c.t.sort())
+        j = z3.Int(fresh_name("j"))
+        self.assume(z3.Length(c2) == n)
+        self.assume(c2[idx] == rec_term)
+        self.assume(z3.ForAll([j], z3.Implies(z3.And(0 <= j, j < n, j != idx), c2[j] == c.z[j]), patterns=[c2[j]]))
+        self.set_content(lst, V(c.t, c2))
+
     def data(self, v):
         """value that can be stored inside a z3 term (refs to lists are stored by content)."""
         if v.t.kind == "list":
@@ -879,6 +898,8 @@ class Run:
             from . import records
 
             return records.as_rec(self, v)
+        if v.t.kind == "lref":
+            return self.lref_value(v)
         if v.t.heap or v.t is T.Const:
             raise Unsupported("cannot store %s inside a data value" % v.t)
         return v
